@@ -68,7 +68,7 @@ pub fn gen_sql_case(prop: &str, verif_seed: u64, idx: u64) -> SqlReplay {
     let mut engine = engine;
     if prop == "C20" {
         let mut r3 = Rng::new(seed ^ 0xC20);
-        served = Some(crate::served::ServedCfg { pipe_seed: r3.next(), eintr: *r3.pick(&[0u64, 0, 10, 30]), frag: r3.below(3), ping_pct: *r3.pick(&[0u64, 10, 40]), garbage_pct: *r3.pick(&[0u64, 50, 100]) });
+        served = Some(crate::served::ServedCfg { pipe_seed: r3.next(), eintr: *r3.pick(&[0u64, 0, 10, 30]), frag: r3.below(3), ping_pct: *r3.pick(&[0u64, 10, 40]), garbage_pct: *r3.pick(&[0u64, 50, 100]), rebegin_pct: *r3.pick(&[0u64, 15, 40]), loopback: idx % 64 == 63 });
         engine = "E1-sqlsim/E5b-served";
     }
     SqlReplay { property: prop.into(), engine: engine.into(), seed, cfg, allow_oom: false, guards, events, alt_cfgs, served, violation: None, trace: vec![] }
